@@ -197,10 +197,11 @@ func (r *result) v(sig string, req cl.Req, format string, a ...any) {
 }
 
 type tester struct {
-	w      *world
-	res    *result
-	before string
-	batch  []cl.Req
+	w        *world
+	res      *result
+	before   string
+	batch    []cl.Req
+	accepted int // requests answered < 400 since the last digest
 }
 
 // exec sends one request. expect: "invalid" (must be 4xx, no state change),
@@ -222,6 +223,8 @@ func (t *tester) exec(req cl.Req, expect, what string) cl.Resp {
 	}
 	if resp.Status >= 400 {
 		t.batch = append(t.batch, req)
+	} else {
+		t.accepted++
 	}
 	return resp
 }
@@ -233,10 +236,15 @@ func (t *tester) exec(req cl.Req, expect, what string) cl.Resp {
 func (t *tester) sideEffects() {
 	if len(t.batch) == 0 {
 		t.before = t.w.digest()
+		t.accepted = 0
 		return
 	}
 	now := t.w.digest()
-	if now != t.before {
+	if now != t.before && t.accepted == 0 {
+		// nothing was accepted since the last digest: the difference is the refused requests' doing
+		r := t.batch[len(t.batch)-1]
+		t.res.v("refused-request-changed-stored-data", r, "%s %s body %s was refused (as were all %d requests since the last look) but the stored collections / points differ afterwards:\n before: %s\n after:  %s", r.Method, r.Path, clipS(r.Body, 300), len(t.batch), clipS([]byte(t.before), 600), clipS([]byte(now), 600))
+	} else if now != t.before {
 		if w2, err := newWorld(); err == nil {
 			d := w2.digest()
 			for _, r := range t.batch {
@@ -255,6 +263,7 @@ func (t *tester) sideEffects() {
 	}
 	t.before = now
 	t.batch = t.batch[:0]
+	t.accepted = 0
 }
 
 func routeShape(p string) string {
@@ -826,6 +835,11 @@ func (t *tester) misc(which int) {
 		}
 		t.exec(cl.JSON("POST", "/v2/collections/colv2/points", "alice", "basic", map[string]any{"points": many}), "invalid", "10001 points")
 		t.exec(cl.JSON("POST", "/v2/collections/colv2/points", "alice", "basic", map[string]any{"points": many[:60]}), "invalid", "over the plan's point quota")
+		// the same refusal on a collection that has no shard yet: nothing may be created for a refused insert
+		t.exec(cl.JSON("POST", "/v2/collections", "bob", "basic", map[string]any{"id": "fresh", "indexSchema": map[string]any{}}), "valid", "a collection without any shard")
+		t.sideEffects()
+		t.exec(cl.JSON("POST", "/v2/collections/fresh/points", "bob", "basic", map[string]any{"points": many[:60]}), "invalid", "over the plan's point quota, first insert into a fresh collection")
+		t.sideEffects()
 		var ids []any
 		for i := 0; i < 101; i++ {
 			ids = append(ids, p1)
